@@ -95,7 +95,8 @@ ConRecord(tag, s, A, b, C, kexp) ==
 BuildCon(s) ==
   LET R == Stream(s)
       n == Draw(R, 1, 2, 4)
-      p == IF n = 4 THEN 1 ELSE Draw(R, 2, 1, n - 1)
+      p0 == IF n = 4 THEN Draw(R, 2, 0, 1) ELSE Draw(R, 2, 0, n - 1)      \* p = 0: no constraint, the plain least-squares
+      p == IF p0 = 0 /\ Draw(R, 4, 0, 2) # 0 THEN 1 ELSE p0                   \* problem through the same routine (rarer)
       m == Draw(R, 3, n - p, 4)
       A == Matrix(R, 10, m, n, -2, 2)
       b == Vector(R, 30, m, -3, 3)
@@ -160,7 +161,7 @@ ConExact      == WellPosedCon => ConstraintExact(sys.C, Sol)
 ConGradRow    == WellPosedCon => GradInRowSpace(sys.C, Grad)
 ConGradNull   == WellPosedCon => GradOrthNullLattice(sys.C, Grad, 2)
 \* g = - C^T lambda (what the multipliers mean)
-ConMultiplier == WellPosedCon => Grad = NegV(MatVec(Tr(sys.C), sys.lam))
+ConMultiplier == (WellPosedCon /\ sys.p > 0) => Grad = NegV(MatVec(Tr(sys.C), sys.lam))
 ConSmall      == WellPosedCon /\ MaxAbsV(sys.num) <= 400 /\ AbsI(sys.den) <= 400
 ConMin        == ConSmall => ConMinimiser(sys.A, sys.b, sys.C, Sol)
 \* row scaling does not change the constrained minimiser (small integer multipliers, one negative)
